@@ -33,6 +33,8 @@ static uint64_t do_pktdecode(const pktlist_t *pk){
   vorbis_block_clear(&vb); vorbis_dsp_clear(&vd); vorbis_comment_clear(&vc); vorbis_info_clear(&vi);
   return h;
 }
+static void dirty_stack(int pattern);
+static __thread int g_poison=-1;   /* c18h: byte pattern laid over the dead stack before every vorbisfile call of a pipeline (set per case from VH_STACK_POISON) */
 static uint64_t do_vf(const buf_t *s,uint64_t seed,int mode){
   OggVorbis_File vf; memsrc_t ms; rng_t r; rng_seed(&r,seed,0x18,(uint64_t)mode); uint64_t h=0; float **pcm; int bs;
   memsrc_init(&ms,s->p,s->n,mode==4?0:1); memsrc_schedule(&ms,RS_RANDOM,3000,seed);
@@ -42,7 +44,10 @@ static uint64_t do_vf(const buf_t *s,uint64_t seed,int mode){
   if(mode==0||mode==3||mode==4){ long g; while((g=ov_read_float(&vf,&pcm,2048,&bs))>0){ int ch=ov_info(&vf,bs)->channels; for(int c=0;c<ch;c++) h=fnv1a(pcm[c],sizeof(float)*g,h); } h=fnv1a(&g,sizeof g,h); }
   else for(int i=0;i<40;i++){
     ogg_int64_t p= T>0?(ogg_int64_t)rng_range(&r,0,(long)T):0; int rs;
+    if(g_poison>=0) dirty_stack(g_poison);
     if(mode==1) rs= rng_chance(&r,0.5)?ov_pcm_seek(&vf,p):ov_time_seek_page(&vf,(double)p/44100.0);
+    else if(i%7==3){ /* a time-based lapped seek from a handle that sits unprimed at the end of the data (nothing to lap from: the lap buffer is all there is) */
+      double tt=ov_time_total(&vf,-1)*((double)(p%1000)/1000.0); ov_raw_seek(&vf,(ogg_int64_t)s->n-1); rs= (i&8)?ov_time_seek_lap(&vf,tt):ov_time_seek_page_lap(&vf,tt); }
     else rs= rng_chance(&r,0.5)?ov_pcm_seek_lap(&vf,p):ov_raw_seek_lap(&vf,rng_range(&r,0,(long)s->n));
     h=fnv1a(&rs,sizeof rs,h); ogg_int64_t t=ov_pcm_tell(&vf); h=fnv1a(&t,sizeof t,h);
     char buf[4096]; long g=ov_read(&vf,buf,sizeof buf,0,2,1,&bs); if(g>0) h=fnv1a(buf,g,h);
@@ -93,13 +98,13 @@ static void build_shared(uint64_t seed){
   { enccfg_t c; enccfg_default(&c); c.nsamples=16000; c.sigseed=seed; c.sig=SIG_CLICKS; encres_t er; enc_run(&c,&er); g_pk=er.pk; buf_init(&g_single); mux_stream(&g_pk,77,PAGE_DEFAULT,0,1,&g_single); }
   { pktlist_init(&g_model); sp_setup *S=sp_gen_setup(&r,8,1); sp_gen_stream(&r,S,24,&g_model,1); sp_free_setup(S); }
 }
-static void dirty_stack(int pattern){ volatile char junk[1<<19]; memset((void*)junk,pattern,sizeof junk); (void)junk[12345]; }
+static void __attribute__((noinline)) dirty_stack(int pattern){ volatile char junk[1<<19]; memset((void*)junk,pattern,sizeof junk); (void)junk[12345]; }
 
 /* ---------------- c18h: one pipeline, print hash ---------------- */
 static void case_c18h(const drvargs_t *a,long id){
   res_begin(id);
   int kind=(int)(id%NPIPE); uint64_t seed=hash64(a->seed*1000003ULL+(uint64_t)(id/NPIPE));
-  const char *pz=getenv("VH_STACK_POISON"); if(pz) dirty_stack((int)strtol(pz,NULL,0));
+  const char *pz=getenv("VH_STACK_POISON"); if(pz){ g_poison=(int)strtol(pz,NULL,0)&255; dirty_stack(g_poison); }
   int rm0=fegetround(); unsigned cs0=_mm_getcsr();
   uint64_t h=pipeline(kind,seed); res_eval(1);
   if(fegetround()!=rm0 || (_mm_getcsr()&~0x3fu)!=(cs0&~0x3fu)) res_viol("C18","fpu-state-changed","rounding mode %d -> %d, mxcsr %x -> %x in %s",rm0,fegetround(),cs0,_mm_getcsr(),pipename[kind]);
